@@ -846,93 +846,3 @@ pub fn managed_big_pool(prop: &'static str, n: usize, lifo: bool) -> Vec<Violati
     v
 }
 
-
-// ------------------------------------------------------------------ take() with a failing detach
-
-pub struct PMgr(pub Arc<AtomicBool>);
-impl managed::Manager for PMgr {
-    type Type = u32;
-    type Error = ();
-    fn create(&self) -> impl Future<Output = Result<u32, ()>> + Send {
-        async { Ok(0) }
-    }
-    fn recycle(&self, _: &mut u32, _: &Metrics) -> impl Future<Output = RecycleResult<()>> + Send {
-        async { Ok(()) }
-    }
-    fn detach(&self, _: &mut u32) {
-        if self.0.swap(false, Ordering::SeqCst) {
-            std::panic::panic_any(vh_common::InjectedPanic(77));
-        }
-    }
-}
-
-/// `max` objects are out, `k` of them are taken and the manager's detach panics each time (user code the
-/// pool runs after it has let the object go); optionally a caller is waiting for a slot meanwhile.
-/// Afterwards the pool must serve the waiter and hand out exactly `max` objects again.
-pub fn take_with_panicking_detach(prop: &'static str, max: usize, k: usize, waiter: bool, lifo: bool) -> Vec<Violation> {
-    let mut v = Vec::new();
-    let arm = Arc::new(AtomicBool::new(false));
-    let pool: Pool<PMgr> = Pool::builder(PMgr(arm.clone())).max_size(max).queue_mode(if lifo { managed::QueueMode::Lifo } else { managed::QueueMode::Fifo }).build().unwrap();
-    let what = format!("max_size {}, {} objects taken with a panicking detach, waiter={}", max, k, waiter);
-    let mut held = Vec::new();
-    for _ in 0..max {
-        match poll_once(pool.timeout_get(&NB)) {
-            Some(Ok(o)) => held.push(o),
-            other => {
-                v.push(Violation { prop, oracle: "capacity_probe", msg: format!("{}: filling the pool: {:?}", what, other.map(|r| r.map(|_| ()))) });
-                return v;
-            }
-        }
-    }
-    let mut waiting = if waiter { Some(Box::pin(pool.get())) } else { None };
-    if let Some(f) = waiting.as_mut() {
-        if super::poll_pinned(f.as_mut()).is_some() {
-            v.push(Violation { prop, oracle: "capacity_probe_extra", msg: format!("{}: a get() on the full pool completed", what) });
-            return v;
-        }
-    }
-    for _ in 0..k {
-        let o = held.pop().unwrap();
-        arm.store(true, Ordering::SeqCst);
-        let r = std::panic::catch_unwind(std::panic::AssertUnwindSafe(|| managed::Object::take(o)));
-        if r.is_ok() && arm.load(Ordering::SeqCst) {
-            v.push(Violation { prop, oracle: "take_detach", msg: format!("{}: take() did not call Manager::detach", what) });
-        }
-        arm.store(false, Ordering::SeqCst);
-    }
-    if let Some(mut f) = waiting.take() {
-        match std::panic::catch_unwind(std::panic::AssertUnwindSafe(|| super::poll_pinned(f.as_mut()))) {
-            Ok(Some(Ok(o))) => held.push(o),
-            Ok(Some(Err(e))) => v.push(Violation { prop, oracle: "unexpected_error", msg: format!("{}: the waiting get() failed with {:?}", what, e) }),
-            Ok(None) => v.push(Violation { prop, oracle: "stranded_waiter", msg: format!("{}: the waiting get() is still pending although {} slots were freed by take() (status {:?})", what, k, pool.status()) }),
-            Err(p) => v.push(Violation { prop, oracle: "operation_panicked", msg: format!("{}: the waiting get() panicked: {}", what, vh_common::panic_message(&*p)) }),
-        }
-    }
-    drop(held);
-    let mut got = Vec::new();
-    for i in 0..=max {
-        match std::panic::catch_unwind(std::panic::AssertUnwindSafe(|| poll_once(pool.timeout_get(&NB)))) {
-            Ok(Some(Ok(o))) => {
-                if i == max {
-                    v.push(Violation { prop, oracle: "capacity_probe_extra", msg: format!("{}: the pool hands out {} objects at once", what, max + 1) });
-                }
-                got.push(o);
-            }
-            Ok(Some(Err(PoolError::Timeout(TimeoutType::Wait)))) => {
-                if i < max {
-                    v.push(Violation { prop, oracle: "capacity_probe", msg: format!("{}: afterwards only {} objects can be out at once (status {:?})", what, i, pool.status()) });
-                }
-                break;
-            }
-            Ok(other) => {
-                v.push(Violation { prop, oracle: "capacity_probe_error", msg: format!("{}: probe get: {:?}", what, other.map(|r| r.map(|_| ()))) });
-                break;
-            }
-            Err(p) => {
-                v.push(Violation { prop, oracle: "operation_panicked", msg: format!("{}: a later get() panicked: {}", what, vh_common::panic_message(&*p)) });
-                break;
-            }
-        }
-    }
-    v
-}
